@@ -341,6 +341,19 @@ def run(R):
         R.fail('C10.FLD.1', inst, LP + '.LpPacketValue', 'class LpPacketValue', f'Fragment is not the last field (last is {wire[-1].name}): headers after it are never parsed', P.path_of(LP))
     else:
         R.ok('C10.FLD.1', inst, P.path_of(LP))
+    # the decoder walks the declared fields in order and (with ignore_critical) silently skips what it cannot place: a header the receive
+    # pipeline relies on must be declared after every header with a smaller type number (senders emit ascending order)
+    for fld in ('frag_index', 'frag_count', 'pit_token', 'nack'):
+        inst = f'LpPacketValue.{fld} :: declared after all smaller header types'
+        if fld not in byname:
+            continue
+        idx = [f.name for f in wire].index(fld)
+        late = [f for f in wire[idx + 1:] if f.name != 'fragment' and f.type is not None and f.type < byname[fld].type]
+        if late:
+            R.fail('C10.FLD.1', inst, LP + '.LpPacketValue', fld, f'`{late[0].name}` (type 0x{late[0].type:x}) is declared after `{fld}` (type 0x{byname[fld].type:x}): in an '
+                   f'envelope carrying both in ascending order the decoder moves past `{fld}` and then skips it as unknown', P.path_of(LP))
+        else:
+            R.ok('C10.FLD.1', inst, P.path_of(LP))
     nk_f = M.fields(LP + '.NetworkNack')
     lp_f = M.fields(LP + '.LpPacket')
     inst = 'NetworkNack / LpPacket :: nesting'
